@@ -1,13 +1,14 @@
 #!/bin/bash
-# Runs the quick check of a seeded change's property against /repo with the change applied, then reverts.
-#   usage: seedrun.sh <name> [tier]     (evidence goes to a scratch dir, never to /verif/evidence)
+# Runs the check of a seeded change's property against a scratch git worktree of /repo with the change applied
+# (/repo itself is never touched; evidence and replays go to scratch directories).
+#   usage: seedrun.sh <name> [tier] [max output lines]
 name=$1; tier=${2:-quick}
 d=/verif/seeded/$name
 prop=$(python3 -c "import json;print(json.load(open('$d/meta.json'))['property'])")
-cd /repo
-git diff --quiet || { echo "repo dirty, refusing"; exit 2; }
-git apply $d/patch.diff || { echo "patch does not apply"; exit 2; }
-out=$(VERIF_EVIDENCE_DIR=/tmp/verif-seed-evidence /verif/govc/bin/govc check -p $prop -tier $tier 2>&1); rc=$?
-git checkout -- . ; git clean -fdq -- . >/dev/null 2>&1
+W=/tmp/verif-seed-repo-$$
+git -C /repo worktree add -q --detach $W HEAD || exit 2
+trap 'git -C /repo worktree remove --force $W >/dev/null 2>&1' EXIT
+git -C $W apply $d/patch.diff || { echo "patch does not apply"; exit 2; }
+out=$(VERIF_REPO=$W VERIF_EVIDENCE_DIR=/tmp/verif-seed-evidence VERIF_REPLAY_DIR=/tmp/verif-seed-replays /verif/govc/bin/govc check -p $prop -tier $tier 2>&1); rc=$?
 echo "$out" | grep -E '^(FAILED OBLIGATION|VIOLATION|BOUNDED|property|KNOWN)' | cut -c1-260 | head -${3:-12}
 echo "seed $name ($prop): rc=$rc"
